@@ -681,7 +681,8 @@ func executeFan(st *ekit.Stats, fc *fcell, fs *fanStats) {
 }
 
 func init() {
-	for _, prop := range []string{"C01", "C17"} {
+	// (C06 / C07 / C08: every subscriber / respondent / member over every real transport gets what was sent)
+	for _, prop := range []string{"C01", "C17", "C06", "C07", "C08"} {
 		ekit.Register(prop, ekit.Scenario{Name: "fanout-and-retransmit", Run: scenFanout})
 	}
 }
